@@ -89,10 +89,6 @@ def run(pid, spec, res, driver_ok, thorough, seed):
     known = load_known()
     mon = monitors.MON[pid]
     keys, offers_mode = spec.get("keys"), spec.get("offers")
-    if thorough:
-        # the deepest exploration compares the whole state and the complete offers, not only the
-        # property's projection
-        keys, offers_mode = None, "full"
     deepen = bool(res.broken)
     # source drift: the hand model was validated against another text of these functions
     try:
